@@ -65,7 +65,7 @@ PROFILES = {
     'c19': dict(put=30, l0burst=3, dele=8, batch=8, get=8, getall=8, snap=2, release=1, flush=6, crange=8, compact=2, reopen=1, scan=5, iter=2, layout=3, longiter=0, repair=5),
     # c20: the c01 mix plus the lifecycle operations (harness/k2_life.h)
     'c20': dict(put=30, dele=8, batch=8, get=14, getall=5, snap=3, release=2, flush=5, crange=6, compact=2, reopen=3, scan=3, iter=2, layout=2, longiter=0,
-                backup=5, bscan=4, copydb=2, wrongcmp=2, failopen=2, lock2=3),
+                backup=5, bscan=4, copydb=2, wrongcmp=2, failopen=2, lock2=3, rebackup=3, recopy=2),
     'c14': dict(put=28, l0burst=3, dele=8, batch=8, get=3, getall=2, snap=4, release=3, flush=8, crange=12, compact=3, reopen=4, scan=1, iter=1, layout=10, longiter=0),
 }
 
@@ -161,6 +161,12 @@ def gen_history(rng, profile='c01', nops=80, cfg=None, heavy=None):
         elif o == 'backup':
             n = rng.below(3); backups.add(n)
             ops.append('backup %d' % n)
+        elif o == 'rebackup':
+            n = rng.choice(sorted(backups)) if backups and rng.chance(3, 4) else rng.below(3)
+            ops.append('rebackup %d' % n); backups.add(n)
+        elif o == 'recopy':
+            if not open_iters:
+                ops.append('recopy %d' % rng.below(2)); live_snaps = []
         elif o == 'bscan':
             if backups:
                 ops.append('bscan %d' % rng.choice(sorted(backups)))
